@@ -137,4 +137,97 @@ theorem parseChunks_roundtrip (jc : JsonChk) : ∀ (cs acc : List (Nat × Bytes)
     rw [this]
     simp
 
+/-! ### `Records` ↔ JSON -/
+
+theorem stripCr_id (l : Bytes) (h : 13 ∉ l) : stripCr l = l := by
+  unfold stripCr
+  cases hr : l.reverse with
+  | nil => rfl
+  | cons a r =>
+    have ha : a ∈ l := by
+      have : a ∈ l.reverse := by rw [hr]; exact List.mem_cons_self ..
+      exact List.mem_reverse.mp this
+    have : a ≠ 13 := fun e => h (e ▸ ha)
+    split
+    · rename_i r' heq
+      simp only [List.cons.injEq] at heq
+      exact absurd heq.1 this
+    · rfl
+
+/-- `lines()` followed by re-joining with `\n` is the identity on texts whose lines all end in `\n`
+and contain no CR -/
+theorem joinLines_linesAux : ∀ (s cur : Bytes), 13 ∉ cur → 13 ∉ s → (s = [] → cur = []) →
+    (s ≠ [] → s.getLast? = some 10) →
+    joinLines ((linesAux s cur).map J.str) = some (cur.reverse ++ s) := by
+  intro s
+  induction s with
+  | nil =>
+    intro cur _ _ h _
+    rw [h rfl]
+    simp [linesAux, joinLines]
+  | cons c r ih =>
+    intro cur hc hs _ hl
+    have hc13 : c ≠ 13 := fun e => hs (e ▸ List.mem_cons_self ..)
+    have hr13 : 13 ∉ r := fun m => hs (List.mem_cons_of_mem _ m)
+    have hlast := hl (by simp)
+    by_cases h10 : c = 10
+    · subst h10
+      simp only [linesAux, if_true, List.map_cons, joinLines, J.asStr]
+      have hrl : r ≠ [] → r.getLast? = some 10 := by
+        intro hne
+        cases r with
+        | nil => exact absurd rfl hne
+        | cons a r' => rw [List.getLast?_cons_cons] at hlast; exact hlast
+      rw [ih [] (by simp) hr13 (fun _ => rfl) hrl]
+      rw [stripCr_id _ (by simpa using hc)]
+      simp
+    · simp only [linesAux, h10, if_false]
+      have hrne : r ≠ [] := by
+        intro e
+        subst e
+        simp at hlast
+        exact h10 hlast
+      have hrl : r ≠ [] → r.getLast? = some 10 := by
+        intro _
+        cases r with
+        | nil => exact absurd rfl hrne
+        | cons a r' => rw [List.getLast?_cons_cons] at hlast; exact hlast
+      rw [ih (c :: cur) (by
+          intro m
+          rcases List.mem_cons.mp m with e | m'
+          · exact hc13 e.symm
+          · exact hc m') hr13 (fun e => absurd e hrne) hrl]
+      simp
+
+/-- a record text as `Records::from_json` produces them: no CR, and if non-empty it ends in `\n` -/
+def RecTextOk (t : Bytes) : Prop := 13 ∉ t ∧ (t ≠ [] → t.getLast? = some 10)
+
+theorem joinLines_strLines (t : Bytes) (h : RecTextOk t) : joinLines ((strLines t).map J.str) = some t := by
+  have := joinLines_linesAux t [] (by simp) h.1 (fun _ => rfl) h.2
+  simpa [strLines] using this
+
+theorem parseRecs_roundtrip : ∀ (rs acc : List (Nat × Bytes)),
+    SortedKeys rs → (∀ p ∈ rs, KeysBelow acc p.1) → (∀ p ∈ rs, RecTextOk p.2) →
+    parseRecs (rs.map (fun (p : Nat × Bytes) => (decStr p.1, J.arr ((strLines p.2).map J.str)))) acc = some (acc ++ rs) := by
+  intro rs
+  induction rs with
+  | nil => intro acc _ _ _; simp [parseRecs]
+  | cons p r ih =>
+    intro acc hs hb hx
+    obtain ⟨k, v⟩ := p
+    have hbk : KeysBelow acc k := hb (k, v) (List.mem_cons_self ..)
+    simp only [List.map_cons, parseRecs, parseDec_decStr, J.members]
+    rw [joinLines_strLines v (hx (k, v) (List.mem_cons_self ..))]
+    simp only []
+    rw [insertChunk_append acc k v hbk]
+    have := ih (acc ++ [(k, v)]) hs.tail
+      (fun q hq => by
+        intro a ha
+        rcases List.mem_append.mp ha with h1 | h1
+        · exact Nat.lt_trans (hbk a h1) (hs.head_lt q hq)
+        · simp only [List.mem_singleton] at h1; subst h1; exact hs.head_lt q hq)
+      (fun q hq => hx q (List.mem_cons_of_mem _ hq))
+    rw [this]
+    simp
+
 end A2Verif.Packing
